@@ -12,6 +12,7 @@ import (
 	"math/rand/v2"
 	"os"
 	"path/filepath"
+	"slices"
 	"sort"
 	"strconv"
 	"strings"
@@ -280,6 +281,105 @@ func (s vf23EOFStorage) ReadObjectParts(buf []byte, a oid.Address, rng bscommon.
 	return n, vf23WrapEOF(rc), err
 }
 
+// vf23FaultStorage wraps the BLOB storage of a shard (outermost) so that the payload streams of
+// chosen objects break in the middle: after the planned number of payload bytes the stream
+// answers with an error instead of more data - what a disk error or a reset connection looks
+// like to the reader. A stream that has nothing left at the break point ends normally (the
+// fault is "not triggered"), headers are never affected. The plan is armed by the test for
+// one read and disarmed right after it.
+type vf23Faults struct {
+	mu              sync.Mutex
+	plan            map[oid.Address]int
+	broken          int // streams that really broke during the armed read
+	brokenAfterData int // ... after having handed out at least one byte
+}
+
+var vf23ErrInjected = errors.New("verif: injected failure in the middle of the payload stream (connection reset)")
+
+func (f *vf23Faults) arm(plan map[oid.Address]int) {
+	f.mu.Lock()
+	f.plan, f.broken, f.brokenAfterData = plan, 0, 0
+	f.mu.Unlock()
+}
+
+func (f *vf23Faults) disarm() (int, int) {
+	f.mu.Lock()
+	defer f.mu.Unlock()
+	f.plan = nil
+	return f.broken, f.brokenAfterData
+}
+
+func (f *vf23Faults) wrap(a oid.Address, rc io.ReadCloser) io.ReadCloser {
+	if rc == nil {
+		return nil
+	}
+	f.mu.Lock()
+	k, ok := f.plan[a]
+	f.mu.Unlock()
+	if !ok {
+		return rc
+	}
+	return &vf23Breaker{src: rc, left: k, f: f}
+}
+
+type vf23Breaker struct {
+	src       io.ReadCloser
+	left      int
+	delivered int
+	tripped   bool
+	f         *vf23Faults
+}
+
+func (b *vf23Breaker) Close() error { return b.src.Close() }
+func (b *vf23Breaker) Read(p []byte) (int, error) {
+	if len(p) == 0 {
+		return 0, nil
+	}
+	if b.tripped {
+		return 0, vf23ErrInjected
+	}
+	if b.left == 0 {
+		// break only if the stream still has something to say
+		var one [1]byte
+		n, err := io.ReadFull(b.src, one[:])
+		if n == 0 {
+			if err == nil || err == io.ErrUnexpectedEOF {
+				err = io.EOF
+			}
+			return 0, err
+		}
+		b.tripped = true
+		b.f.mu.Lock()
+		b.f.broken++
+		if b.delivered > 0 {
+			b.f.brokenAfterData++
+		}
+		b.f.mu.Unlock()
+		return 0, vf23ErrInjected
+	}
+	if len(p) > b.left {
+		p = p[:b.left]
+	}
+	n, err := b.src.Read(p)
+	b.left -= n
+	b.delivered += n
+	return n, err
+}
+
+type vf23FaultStorage struct {
+	bscommon.Storage
+	f *vf23Faults
+}
+
+func (s vf23FaultStorage) GetRangeStream(a oid.Address, rng bscommon.PayloadRange, readHeader bool) (*object.Object, uint64, io.ReadCloser, error) {
+	h, n, rc, err := s.Storage.GetRangeStream(a, rng, readHeader)
+	return h, n, s.f.wrap(a, rc), err
+}
+func (s vf23FaultStorage) GetStream(a oid.Address) (*object.Object, io.ReadCloser, error) {
+	h, rc, err := s.Storage.GetStream(a)
+	return h, s.f.wrap(a, rc), err
+}
+
 // collector for client-side slicing
 type vf23Collector struct{ objs []object.Object }
 type vf23CollectorW struct {
@@ -333,6 +433,9 @@ type vf23Fixture struct {
 	// unsplit EC object whose payload is so short that some data parts of rule #0 hold zero padding only
 	paddingOnlyDataParts bool
 	lastMember           []byte // payload of the last split member (v1/v2)
+	rules                []iec.Rule
+	// stored objects carrying EC part (rule, index); one per size-split member
+	partAddrs map[[2]int][]oid.Address
 }
 
 func vf23Key(rng *rand.Rand) *keys.PrivateKey {
@@ -359,13 +462,14 @@ func vf23Header(cnr cid.ID, owner user.ID, payload []byte, name string) object.O
 }
 
 type vf23World struct {
-	r     *verifkit.Run
-	eng   *engine.StorageEngine
-	svc   *Service
-	net   *vf23Net
-	owner user.Signer
-	local netmap.NodeInfo
-	nPut  int
+	r      *verifkit.Run
+	faults *vf23Faults
+	eng    *engine.StorageEngine
+	svc    *Service
+	net    *vf23Net
+	owner  user.Signer
+	local  netmap.NodeInfo
+	nPut   int
 }
 
 func (w *vf23World) put(o object.Object) bool {
@@ -419,7 +523,7 @@ func (w *vf23World) newContainer(rng *rand.Rand, rules []iec.Rule) (cid.ID, cont
 	return cnr, cont
 }
 
-func (w *vf23World) ecParts(rng *rand.Rand, parentHdr object.Object, payload []byte, rules []iec.Rule, missing [][]int) bool {
+func (w *vf23World) ecParts(fx *vf23Fixture, parentHdr object.Object, payload []byte, rules []iec.Rule, missing [][]int) bool {
 	for ri, ru := range rules {
 		parts, _, err := iec.Encode(ru, bytes.Clone(payload))
 		if err != nil {
@@ -452,6 +556,10 @@ func (w *vf23World) ecParts(rng *rand.Rand, parentHdr object.Object, payload []b
 			if !w.put(part) {
 				return false
 			}
+			if fx.partAddrs == nil {
+				fx.partAddrs = map[[2]int][]oid.Address{}
+			}
+			fx.partAddrs[[2]int{ri, pi}] = append(fx.partAddrs[[2]int{ri, pi}], oid.NewAddress(part.GetContainerID(), part.GetID()))
 		}
 	}
 	return true
@@ -467,6 +575,34 @@ func vf23Hashes(payload []byte, rules []iec.Rule) string {
 		all = append(all, hs...)
 	}
 	return strings.Join(all, ",")
+}
+
+// vf23LossFlags tells, for the given sets of unavailable parts per rule, whether the rule a full
+// GET restores from (the first one with <= p parts unavailable) lacks all its data parts, and
+// whether part #0 is unavailable in every rule.
+func vf23LossFlags(rules []iec.Rule, missing [][]int) (allDataOfRestoringRuleMissing, part0MissingEverywhere bool, restoring int) {
+	part0MissingEverywhere = true
+	restoring = -1
+	for ri, ru := range rules {
+		has0 := true
+		dataMissing := 0
+		for _, m := range missing[ri] {
+			if m == 0 {
+				has0 = false
+			}
+			if m < int(ru.DataPartNum) {
+				dataMissing++
+			}
+		}
+		if has0 {
+			part0MissingEverywhere = false
+		}
+		if restoring < 0 && len(missing[ri]) <= int(ru.ParityPartNum) {
+			restoring = ri
+			allDataOfRestoringRuleMissing = dataMissing == int(ru.DataPartNum)
+		}
+	}
+	return
 }
 
 // build stores one object in the given layout and returns its description.
@@ -485,6 +621,7 @@ func (w *vf23World) build(rng *rand.Rand, layout string, idx int) *vf23Fixture {
 			fx.Rules = append(fx.Rules, ru.String())
 		}
 	}
+	fx.rules = rules
 	fx.cnr, fx.cont = w.newContainer(rng, rules)
 	owner := w.owner.UserID()
 
@@ -555,27 +692,7 @@ func (w *vf23World) build(rng *rand.Rand, layout string, idx int) *vf23Fixture {
 		}
 	}
 	if isEC {
-		fx.part0MissingEverywhere = true
-		restoring := -1
-		for ri, ru := range rules {
-			has0 := true
-			dataMissing := 0
-			for _, m := range fx.Missing[ri] {
-				if m == 0 {
-					has0 = false
-				}
-				if m < int(ru.DataPartNum) {
-					dataMissing++
-				}
-			}
-			if has0 {
-				fx.part0MissingEverywhere = false
-			}
-			if restoring < 0 && len(fx.Missing[ri]) <= int(ru.ParityPartNum) {
-				restoring = ri
-				fx.allDataOfRestoringRuleMissing = dataMissing == int(ru.DataPartNum)
-			}
-		}
+		fx.allDataOfRestoringRuleMissing, fx.part0MissingEverywhere, _ = vf23LossFlags(rules, fx.Missing)
 	}
 	addPartBoundaries := func(base, n int) {
 		for _, ru := range rules {
@@ -636,7 +753,7 @@ func (w *vf23World) build(rng *rand.Rand, layout string, idx int) *vf23Fixture {
 		off := 0
 		for i, m := range members {
 			if isEC {
-				if !w.ecParts(rng, *m.CutPayload(), memberPayloads[i], rules, fx.Missing) {
+				if !w.ecParts(fx, *m.CutPayload(), memberPayloads[i], rules, fx.Missing) {
 					return nil
 				}
 				addPartBoundaries(off, len(m.Payload()))
@@ -715,7 +832,7 @@ func (w *vf23World) build(rng *rand.Rand, layout string, idx int) *vf23Fixture {
 		parent.SetAttributes(append(parent.Attributes(), object.NewAttribute(iec.AttributePartsHashes, vf23Hashes(fx.payload, rules)))...)
 		_ = parent.CalculateAndSetID()
 		fx.root = parent.GetID()
-		if !w.ecParts(rng, parent, fx.payload, rules, fx.Missing) {
+		if !w.ecParts(fx, parent, fx.payload, rules, fx.Missing) {
 			return nil
 		}
 		addPartBoundaries(0, fx.Len)
@@ -754,6 +871,14 @@ type vf23Request struct {
 	B      uint64 `json:"b"`
 	Local  bool   `json:"local_only"`
 	PlOnly bool   `json:"payload_only"`
+	// payload streams of these stored EC parts break after the given number of bytes while the read is served
+	Breaks []vf23Break `json:"mid_stream_breaks,omitempty"`
+}
+
+type vf23Break struct {
+	Rule  int `json:"rule"`
+	Part  int `json:"part"`
+	After int `json:"after_bytes"`
 }
 
 type vf23Expect struct {
@@ -878,6 +1003,101 @@ func vf23GenRequest(rng *rand.Rand, fx *vf23Fixture, isRep bool) vf23Request {
 	return rq
 }
 
+// vf23OnlyHeaderlessMembersDropped recognises the answer the known defect "full GET takes the
+// parent header from data parts only" gives under broken streams: the payload is exact except
+// that (size-split members of) the object of which every data part of the restoring rule is
+// really unavailable - not stored, or its stream breaks before the end - come back empty.
+func vf23OnlyHeaderlessMembersDropped(fx *vf23Fixture, rq vf23Request, restoring int, got []byte) bool {
+	if restoring < 0 {
+		return false
+	}
+	d := int(fx.rules[restoring].DataPartNum)
+	step := fx.Len
+	if fx.Limit > 0 {
+		step = fx.Limit
+	}
+	dropped := 0
+	for off := 0; off < fx.Len; off += step {
+		m := fx.payload[off:min(off+step, fx.Len)]
+		if bytes.HasPrefix(got, m) {
+			got = got[len(m):]
+			continue
+		}
+		pl := (len(m) + d - 1) / d
+		for pi := 0; pi < d; pi++ {
+			if slices.Contains(fx.Missing[restoring], pi) {
+				continue
+			}
+			if !slices.ContainsFunc(rq.Breaks, func(b vf23Break) bool { return b.Rule == restoring && b.Part == pi && b.After < pl }) {
+				return false // this data part is readable, the member must have been served
+			}
+		}
+		dropped++
+	}
+	return dropped > 0 && len(got) == 0
+}
+
+// vf23GenBreaks plans mid-stream failures for one read of an EC fixture: 1..p+1 stored parts of
+// one rule (mostly rule #0, mostly data parts), sometimes one more part of the other rule. Break
+// points: at the very start, after one byte, inside the requested length, anywhere in the part.
+func vf23GenBreaks(rng *rand.Rand, fx *vf23Fixture, reqLen int) []vf23Break {
+	var out []vf23Break
+	objLen := fx.Len
+	if fx.Limit > 0 {
+		objLen = min(fx.Len, fx.Limit)
+	}
+	add := func(ri, n int) {
+		ru := fx.rules[ri]
+		d, total := int(ru.DataPartNum), int(ru.DataPartNum)+int(ru.ParityPartNum)
+		var data, all []int
+		for pi := 0; pi < total; pi++ {
+			if slices.Contains(fx.Missing[ri], pi) {
+				continue
+			}
+			all = append(all, pi)
+			if pi < d {
+				data = append(data, pi)
+			}
+		}
+		pl := (objLen + d - 1) / d
+		for i := 0; i < n && len(all) > 0; i++ {
+			var pi int
+			if len(data) > 0 && rng.IntN(4) != 0 {
+				pi = data[rng.IntN(len(data))]
+			} else {
+				pi = all[rng.IntN(len(all))]
+			}
+			all = slices.DeleteFunc(all, func(x int) bool { return x == pi })
+			data = slices.DeleteFunc(data, func(x int) bool { return x == pi })
+			var k int
+			switch rng.IntN(6) {
+			case 0:
+				k = 0
+			case 1:
+				k = 1
+			case 2, 3:
+				k = rng.IntN(min(pl, reqLen) + 1)
+			default:
+				k = rng.IntN(pl + 1)
+			}
+			out = append(out, vf23Break{Rule: ri, Part: pi, After: k})
+		}
+	}
+	ri := 0
+	if rng.IntN(3) == 0 {
+		ri = rng.IntN(len(fx.rules))
+	}
+	n := 1
+	if rng.IntN(3) == 0 {
+		n = 1 + rng.IntN(int(fx.rules[ri].ParityPartNum)+1) // up to p+1: the rule gets beyond repair
+	}
+	add(ri, n)
+	if len(fx.rules) > 1 && rng.IntN(4) == 0 {
+		add(1-ri, 1)
+	}
+	return out
+}
+
 // ---------------------------------------------------------------------------------
 // test
 // ---------------------------------------------------------------------------------
@@ -888,6 +1108,7 @@ func TestVerif_C23(t *testing.T) {
 	nWorlds := r.Pick(4, 24)
 	objsPerWorld := r.Pick(30, 45)
 	readsPerObj := r.Pick(45, 100)
+	faultReadsPerECObj := r.Pick(10, 24)
 	layouts := []string{"whole", "v2-link", "v2-nolink", "v1-link", "v1-nolink", "ec", "ec-lossy", "ec-fallback", "ec-split-link", "ec-split-nolink", "ec-split-lossy-link", "ec-split-lossy-nolink", "ec-lossy", "ec-split-fallback-link", "ec-split-fallback-nolink"}
 	r.SetRule(fmt.Sprintf("%d real StorageEngines (1..2 shards, FSTree+metabase) x %d stored objects in the layouts %v (payload 0..64KiB, split limits 1..4KiB incl. exact multiples, 1..2 EC rules d=1..6 p=1..3, up to p parts of a rule not stored, 'fallback' = rule #0 beyond repair and rule #1 intact) x %d reads each through Service.Get (full and extended ranges: offset/length, inclusive bounds, from, suffix; with and without payload-only) and Service.GetRange (legacy), full GET of EC objects additionally through a streaming EC transport fake (Prm.WithECTransport), offsets drawn from member/part boundaries +-1, 0, len-1, len, len+1 and uniformly; distinct = (layout, API, range mode, position class of both ends, result class)", nWorlds, objsPerWorld, layouts, readsPerObj))
 	r.Assume("single-node network: the local node holds everything that is stored, every other container node is unreachable")
@@ -929,6 +1150,20 @@ func TestVerif_C23(t *testing.T) {
 				}
 				vf23Read(r, w, fx, rq, caseNo)
 			}
+			if isRep {
+				continue
+			}
+			// the same kinds of reads while payload streams of some stored parts break in the middle
+			for k := 0; k < faultReadsPerECObj; k++ {
+				caseNo++
+				frng := r.Rand("fault-read", caseNo)
+				rq := vf23GenRequest(frng, fx, false)
+				if rq.API == "get-ec-stream" {
+					rq.API = "get"
+				}
+				rq.Breaks = vf23GenBreaks(frng, fx, len(vf23Reference(fx.payload, rq).data))
+				vf23Read(r, w, fx, rq, caseNo)
+			}
 		}
 		r.Count("fixture_objects_put_into_engine", w.nPut)
 		_ = w.eng.Close()
@@ -937,11 +1172,14 @@ func TestVerif_C23(t *testing.T) {
 	if r.Counter("reads_ok_bytes_equal") == 0 || r.Counter("reads_out_of_range_as_demanded") == 0 {
 		r.Inconclusive("did not observe both successful reads and out-of-range answers")
 	}
+	if r.Counter("fault_reads") > 0 && (r.Counter("fault_reads_a_stream_broke_after_handing_out_bytes") == 0 || r.Counter("fault_reads_ok_bytes_equal") == 0) {
+		r.Inconclusive("reads with planned mid-stream failures: no stream broke after handing out bytes, or none of these reads was answered")
+	}
 }
 
 func vf23NewWorld(r *verifkit.Run, rng *rand.Rand, dir string, eofWithData bool) *vf23World {
 	nodeKey := vf23Key(rng)
-	w := &vf23World{r: r, owner: user.NewAutoIDSignerRFC6979(vf23Key(rng).PrivateKey)}
+	w := &vf23World{r: r, faults: &vf23Faults{}, owner: user.NewAutoIDSignerRFC6979(vf23Key(rng).PrivateKey)}
 	w.local.SetPublicKey(nodeKey.PublicKey().Bytes())
 	w.local.SetNetworkEndpoints("/ip4/10.1.1.1/tcp/8080")
 	w.net = &vf23Net{localPub: nodeKey.PublicKey().Bytes(), byCnr: map[cid.ID]vf23Placement{}}
@@ -958,7 +1196,7 @@ func vf23NewWorld(r *verifkit.Run, rng *rand.Rand, dir string, eofWithData bool)
 	for i := 0; i < 1+rng.IntN(2); i++ {
 		_, err := w.eng.AddShard(
 			shard.WithLogger(elg),
-			shard.WithBlobstor(blob(fstree.New(fstree.WithPath(filepath.Join(dir, fmt.Sprintf("fstree%d", i))), fstree.WithDepth(1), fstree.WithNoSync(true)))),
+			shard.WithBlobstor(vf23FaultStorage{Storage: blob(fstree.New(fstree.WithPath(filepath.Join(dir, fmt.Sprintf("fstree%d", i))), fstree.WithDepth(1), fstree.WithNoSync(true))), f: w.faults}),
 			shard.WithMetaBaseOptions(
 				meta.WithPath(filepath.Join(dir, fmt.Sprintf("meta%d", i))),
 				meta.WithPermissions(0o700),
@@ -1023,6 +1261,52 @@ func vf23Read(r *verifkit.Run, w *vf23World, fx *vf23Fixture, rq vf23Request, ca
 	out := &vf23Writer{}
 	var err error
 	var tr *vf23ECTransport
+	// planned mid-stream failures: a part whose stream is planned to break counts as unavailable;
+	// the statement promises the bytes while some rule has no more than its parity count of
+	// parts unavailable, beyond that only "no wrong answer" is demanded
+	faulty := len(rq.Breaks) > 0
+	withinBudget, rule0BeyondRepair := true, false
+	allDataOfRestoringRuleMissing := fx.allDataOfRestoringRuleMissing
+	restoringRule, part0HeaderDefectMet := -1, false
+	if faulty {
+		plan := map[oid.Address]int{}
+		unavail := make([][]int, len(fx.rules))
+		for ri := range fx.rules {
+			unavail[ri] = slices.Clone(fx.Missing[ri])
+		}
+		for _, b := range rq.Breaks {
+			unavail[b.Rule] = append(unavail[b.Rule], b.Part)
+			for _, a := range fx.partAddrs[[2]int{b.Rule, b.Part}] {
+				plan[a] = b.After
+			}
+		}
+		withinBudget = false
+		for ri, ru := range fx.rules {
+			if len(unavail[ri]) <= int(ru.ParityPartNum) {
+				withinBudget = true
+			} else if ri == 0 {
+				rule0BeyondRepair = true
+			}
+		}
+		allDataOfRestoringRuleMissing, _, restoringRule = vf23LossFlags(fx.rules, unavail)
+		// range reads: a broken stream still yields the part header. The known "header of a range
+		// read is taken from part #0 only" defect is met when no rule tried before (and including)
+		// a rule within budget has its part #0 stored
+		hdrKnown := false
+		for ri, ru := range fx.rules {
+			if !slices.Contains(fx.Missing[ri], 0) {
+				hdrKnown = true
+			}
+			if len(unavail[ri]) <= int(ru.ParityPartNum) {
+				if hdrKnown {
+					part0HeaderDefectMet = false
+					break
+				}
+				part0HeaderDefectMet = true
+			}
+		}
+		w.faults.arm(plan)
+	}
 	panicked := r.Guard(desc, func() {
 		switch rq.API {
 		case "get", "get-range-ext", "get-ec-stream":
@@ -1066,6 +1350,10 @@ func vf23Read(r *verifkit.Run, w *vf23World, fx *vf23Fixture, rq vf23Request, ca
 		}
 	})
 	r.Eval(1)
+	var broken, brokenAfterData int
+	if faulty {
+		broken, brokenAfterData = w.faults.disarm()
+	}
 	if panicked {
 		return
 	}
@@ -1079,14 +1367,26 @@ func vf23Read(r *verifkit.Run, w *vf23World, fx *vf23Fixture, rq vf23Request, ca
 			return "ec|get-ec-stream|short-payload-leaves-padding-only-data-parts|padding-transmitted-then-payload-overflow-error"
 		case rq.API == "get-ec-stream" && fx.paddingOnlyDataParts && sym == "wrong-bytes|extra-bytes" && len(bytes.Trim(out.buf[fx.Len:], "\x00")) == 0:
 			return "ec|get-ec-stream|short-payload-leaves-padding-only-data-parts|zero-padding-appended"
-		case isEC && rq.Mode == "full" && err == nil && len(out.buf) == 0 && fx.Len > 0 && fx.allDataOfRestoringRuleMissing:
+		case isEC && rq.Mode == "full" && err == nil && len(out.buf) == 0 && fx.Len > 0 && allDataOfRestoringRuleMissing:
 			return "ec|all-data-parts-of-restoring-rule-missing|full-get-returns-empty-object"
 		case isEC && rq.Mode != "full" && err != nil && errors.Is(err, apistatus.ErrObjectNotFound) && fx.part0MissingEverywhere:
 			return "ec|part0-missing-in-every-rule|range-read-object-not-found"
+		case faulty && rq.Mode != "full" && err != nil && errors.Is(err, apistatus.ErrObjectNotFound) && part0HeaderDefectMet && strings.Contains(err.Error(), "first error: resolve parent payload length"):
+			// same defect: the rules that the broken streams leave within budget lack part #0
+			return "ec|part0-missing-in-every-rule|range-read-object-not-found"
+		case faulty && rq.Mode == "full" && err == nil && fx.Len > 0 && allDataOfRestoringRuleMissing && vf23OnlyHeaderlessMembersDropped(fx, rq, restoringRule, out.buf):
+			// same defect as the next one, per size-split member
+			return "ec|all-data-parts-of-restoring-rule-missing|full-get-returns-empty-object"
 		case fx.Layout == "v2-nolink" && rq.Mode != "full" && sym == "wrong-bytes|truncated" && len(out.buf) == 0:
 			return "v2-nolink|any-range|walk-back-from-last-part-returns-no-bytes"
 		case fx.Layout == "v1-nolink" && sym == "wrong-bytes|extra-bytes" && len(fx.lastMember) > 0 && bytes.Equal(out.buf[len(out.buf)-min(len(out.buf), len(fx.lastMember)):], fx.lastMember) && len(out.buf) == len(vf23Reference(fx.payload, rq).data)+len(fx.lastMember):
 			return "v1-nolink|range-ends-before-last-member|whole-last-member-appended"
+		}
+		if faulty {
+			sym += "|part-streams-break-midway"
+			if rule0BeyondRepair {
+				sym += "|rule0-beyond-repair-counting-broken-streams"
+			}
 		}
 		return fmt.Sprintf("%s|%s|%s|%s", fx.Layout, rq.API, rq.Mode, sym)
 	}
@@ -1097,7 +1397,38 @@ func vf23Read(r *verifkit.Run, w *vf23World, fx *vf23Fixture, rq vf23Request, ca
 	case err != nil:
 		resClass = "error"
 	}
-	r.Distinct(fmt.Sprintf("%s|%s|%s|%s|%s|%s", fx.Layout, rq.API, rq.Mode, vf23PosClass(rq.A, fx), vf23PosClass(rq.A+rq.B, fx), resClass))
+	faultClass := ""
+	if faulty {
+		switch {
+		case !withinBudget:
+			faultClass = "|faults:every-rule-beyond-repair"
+		case rule0BeyondRepair:
+			faultClass = "|faults:rule0-beyond-repair,later-rule-within-budget"
+		default:
+			faultClass = "|faults:rule0-within-budget"
+		}
+		if brokenAfterData > 0 {
+			faultClass += ",broke-after-data"
+		} else if broken > 0 {
+			faultClass += ",broke-at-start"
+		} else {
+			faultClass += ",not-triggered"
+		}
+		r.Count("fault_reads", 1)
+		r.Count("fault_reads_"+rq.API+"_"+rq.Mode, 1)
+		r.Count("fault_read_streams_broken", broken)
+		if broken > 0 {
+			r.Count("fault_reads_a_stream_broke", 1)
+		}
+		if brokenAfterData > 0 {
+			r.Count("fault_reads_a_stream_broke_after_handing_out_bytes", 1)
+			if rule0BeyondRepair && withinBudget {
+				r.Count("fault_reads_stream_broke_after_bytes,rule0_beyond_repair,later_rule_within_budget", 1)
+			}
+		}
+		r.Seen("fault_read_classes_seen", strings.TrimPrefix(faultClass, "|faults:")+":"+resClass)
+	}
+	r.Distinct(fmt.Sprintf("%s|%s|%s|%s|%s|%s%s", fx.Layout, rq.API, rq.Mode, vf23PosClass(rq.A, fx), vf23PosClass(rq.A+rq.B, fx), resClass, faultClass))
 	r.Seen("result_classes_seen", fx.Layout+":"+resClass)
 	if isEC {
 		nMiss := 0
@@ -1133,6 +1464,10 @@ func vf23Read(r *verifkit.Run, w *vf23World, fx *vf23Fixture, rq vf23Request, ca
 			r.Violation(key("unsatisfiable-range-served"), fmt.Sprintf("%s range %d,%d of a %d-byte object was served (%d bytes) instead of out-of-range", rq.Mode, rq.A, rq.B, fx.Len, len(out.buf)), desc)
 			return
 		}
+		if !oor && !withinBudget {
+			r.Count("fault_reads_beyond_every_rules_budget_failed(allowed)", 1)
+			return
+		}
 		if !oor {
 			r.Violation(key("unsatisfiable-range-other-error"), fmt.Sprintf("%s range %d,%d of a %d-byte object: expected out-of-range status, got: %v", rq.Mode, rq.A, rq.B, fx.Len, err), desc)
 			return
@@ -1142,6 +1477,10 @@ func vf23Read(r *verifkit.Run, w *vf23World, fx *vf23Fixture, rq vf23Request, ca
 		if err != nil {
 			if exp.orOOR && oor {
 				r.Count("reads_clippable_range_refused_as_out_of_range(allowed)", 1)
+				return
+			}
+			if !withinBudget {
+				r.Count("fault_reads_beyond_every_rules_budget_failed(allowed)", 1)
 				return
 			}
 			sym := "read-failed"
@@ -1189,6 +1528,12 @@ func vf23Read(r *verifkit.Run, w *vf23World, fx *vf23Fixture, rq vf23Request, ca
 		}
 		r.Count("reads_ok_bytes_equal", 1)
 		r.Count("bytes_compared", len(exp.data))
+		if faulty {
+			r.Count("fault_reads_ok_bytes_equal", 1)
+			if broken > 0 {
+				r.Count("fault_reads_ok_bytes_equal_although_a_stream_broke", 1)
+			}
+		}
 		if caseNo%2503 == 0 {
 			r.Sample(map[string]any{"layout": fx.Layout, "len": fx.Len, "split_limit": fx.Limit, "ec_rules": fx.Rules, "ec_missing": fx.Missing, "request": rq, "bytes": len(exp.data)})
 		}
